@@ -153,7 +153,7 @@ class MTSPEnv(RL4COEnvBase):
         # Other variables
         current_node = torch.zeros((*batch_size,), dtype=torch.int64, device=device)
         available = torch.ones(
-            (*batch_size, self.generator.num_loc), dtype=torch.bool, device=device
+            (*batch_size, td["locs"].shape[-2]), dtype=torch.bool, device=device
         )  # 1 means not visited, i.e. action is allowed
         available[..., 0] = 0  # Depot is not available as first node
         i = torch.zeros((*batch_size,), dtype=torch.int64, device=device)
